@@ -433,6 +433,8 @@ class ExecCall(ExecExpr):
                                     z3.ForAll([k], z3.Implies(z3.And(0 <= k, k < SLen(a.t)), SAt(a.t, k) == SAt(b.t, k)))))
         if name == "set_same":
             a, b = args
+            if isinstance(a, V) and isinstance(b, V) and a.kind in ("int", "real", "bool", "str") and a.kind == b.kind:
+                return V("bool", a.t == b.t)      # values: hash-and-== membership is equality
             return V("bool", self.set_same_uf()(a.t, b.t))
         if name == "iff":
             return V("bool", self.truth(args[0]) == self.truth(args[1]))
